@@ -46,6 +46,17 @@ theorem nodup_map_filter {l : List Handler} (p : Handler → Bool) (h : (l.map (
     ((l.filter p).map (·.uid)).Nodup :=
   List.Nodup.sublist (List.Sublist.map _ List.filter_sublist) h
 
+theorem eq_of_uid_eq : ∀ {l : List Handler}, (l.map (·.uid)).Nodup → ∀ {x y : Handler}, x ∈ l → y ∈ l →
+    x.uid = y.uid → x = y
+  | [], _, _, _, hx, _, _ => by cases hx
+  | a :: l, hnd, x, y, hx, hy, hu => by
+    rw [List.map_cons, List.nodup_cons] at hnd
+    rcases List.mem_cons.1 hx with hxa | hx <;> rcases List.mem_cons.1 hy with hya | hy
+    · rw [hxa, hya]
+    · exact absurd (List.mem_map.2 ⟨y, hy, by rw [← hu, hxa]⟩) hnd.1
+    · exact absurd (List.mem_map.2 ⟨x, hx, by rw [hu, hya]⟩) hnd.1
+    · exact eq_of_uid_eq hnd.2 hx hy hu
+
 theorem HW_rec1 {n : Nat} {q : List QElem} {s' : SmState} (h : HW c) (hn : c.nextUid ≤ n) :
     HW { c with nextUid := n, queue := q, sm := s' } :=
   { h with bh := fun x hx => Nat.lt_of_lt_of_le (h.bh x hx) hn, bi := fun x hx => Nat.lt_of_lt_of_le (h.bi x hx) hn }
